@@ -17,6 +17,11 @@ P["C17"] = dict(
    note=TB + " The reading of 'not defined for' is coq/Ndx/ElemLaws.v outside_domain. Known findings: 4 classes.",
    technique="Coq theorem re-proved by reflection on a table regenerated from /repo (trace-time outcome of every function x dtype tuple)",
    ref="DESIGN.md §5 C17")
+P["C02"] = dict(
+   text="Proof, partial. Coq theorems (closed, all operand values, all 8 integer dtypes unless excluded by name): add/subtract/multiply/negative wrap modulo 2^bits although routed through int64 (2^bits | 2^64), comparisons exact for every integer dtype but uint64, floor/ceil/round/trunc/positive are the identity on integers; `_refuted` lemmas with witnesses for uint64-through-int64, remainder's sign, int64 right shift, floor_divide through floating point. Tie 1 (T-graph, every run): each element-wise function is traced on placeholders for every dtype (ranks 0/1/3), the ONNX graph is translated node for node into a Gallina term and Coq checks it equals the model table Ndx/ElemTable.v; definedness inside the standard's domain is re-proved on the regenerated table. Tie 2 (in-Coq correspondence, every run): implementation results on boundary-stratified operands are compared inside Coq with `eval` of the row's graph under the operator semantics Ndx/ElemSem.v (SpecFloat for IEEE + - * / sqrt floor ceil round casts). Partial: the accuracy of onnxruntime's transcendental kernels is only sampled against NumPy (4 ulp).",
+   note=TB + " Not proved: transcendental kernel accuracy; closed-form theorems for bitwise/shift/pow/sign (covered by the in-Coq correspondence). 11 known-finding classes.",
+   technique="Coq theorems over a term model of the traced ONNX graphs (T-graph translation checked in Coq) + in-Coq evaluation of the model against implementation outputs",
+   ref="DESIGN.md §5 C02")
 NOT_YET = {}
 props = [json.loads(l) for l in open(V/'properties.jsonl')]
 checks, na = [], []
